@@ -791,9 +791,20 @@ class CSSStyleSheet(cssutils.stylesheets.StyleSheet):
                 and self.namespaces[rule.prefix] == rule.namespaceURI
             ):
                 # no doublettes
+                oldrules = list(self._cssRules)
                 self._cssRules.insert(index, rule)
                 if _clean:
-                    self._cleanNamespaces()
+                    try:
+                        self._cleanNamespaces()
+                    except xml.dom.DOMException:
+                        # a superseded rule is still needed: the new rule
+                        # cannot be added, put everything back
+                        for r in oldrules:
+                            r._parentStyleSheet = self
+                        del self._cssRules[:]
+                        for i, r in enumerate(oldrules):
+                            self._cssRules.insert(i, r)
+                        raise
 
         # @variables
         elif rule.type == rule.VARIABLES_RULE:
